@@ -269,7 +269,7 @@ def _report(mod, tier, seed, case_list, results, capped, wall):
         "cases": len(results),
         "cases_enumerated": len(case_list),
         "distinct_nontrivial": len(distinct),
-        "rule": mod.RULE,
+        "rule": mod.RULE + ("  " + mod.RULE_ADDED if getattr(mod, "RULE_ADDED", None) else ""),
         "samples": samples,
         "exhaustive": (not capped) and len(results) == len(case_list) and not harness_errors,
         "verdict_histogram": hist,
